@@ -1,4 +1,5 @@
 """C08 Reordering"""
+import ewho
 import ecanon
 import elin
 import eunits
@@ -20,5 +21,10 @@ def run(ctx):
     st = elin.run(ctx, F, crates=("oxidd_reorder",), skip_guard_table=True)
     ctx.floor("E-LIN", "oxidd-reorder bodies analysed", st["bodies"], 30)
     ecanon.check_level_swap_order(ctx, F)
+    ctx.explain("E-WHO: the operations that temporarily break the level invariants (swap, take, insert_unchecked, "
+                "get_or_insert_unchecked, set_child, set_level) are called only from oxidd-reorder; node-removal "
+                "primitives only from gc / try_remove_node / level views, gated by reorder_gc_prepared / "
+                "allow_node_removal; level_swap uses the unchecked insertions only.")
+    ewho.run(ctx, F)
     ctx.not_decided = ("that functions are preserved, that the requested order is reached with minimal swaps, "
                        "non-overlap of concurrent swaps (runtime indices)")
